@@ -11,7 +11,7 @@ import (
 func init() {
 	Registry["C46"] = RuleDef{Module: ".", Run: runC46,
 		Technique:   "guard and def-use rules over the SSA of the Scanner closures, including the compiler-synthesised range-over-func bodies: cursor threading, continuation guards, no yield after a false yield, loop shape of the element walks",
-		Explanation: "Decides: (R46a) the first page is requested with cursor 0 and every later page with the Cursor field of the entry returned by the previous request, each request's error being stored in the scanner; (R46b) another page is requested only when the stored error is nil, the consumer's yield of the current page returned true and the page's cursor is not 0, and the page handed to yield is the Elements field of the entry just received; (R46c) in every iterator body no yield call is reachable after a yield returned false, and a false yield makes the page callback return false (which by R46b stops the scan) while a completed page returns true; (R46d) Iter yields page[i] for every i in order, Iter2 yields (page[i], page[i+1]) for i = 0, 2, 4, ... while i+1 < len(page).",
+		Explanation: "Decides: (R46a) the first page is requested with cursor 0 and every later page with the Cursor field of the entry returned by the previous request, each request's error being stored in the scanner; (R46b) another page is requested only when the stored error is nil, the consumer's yield of the current page returned true and the page's cursor is not 0, and the page handed to yield is the Elements field of the entry just received; (R46c) in every iterator body no yield call is reachable after a yield returned false, and a false yield makes the page callback return false (which by R46b stops the scan) while a completed page returns true; (R46e) the page loop is left only under a failed request, a false yield or cursor 0 (for instance an empty page with a non-zero cursor does not end the scan); (R46d) Iter yields page[i] for every i in order, Iter2 yields (page[i], page[i+1]) for i = 0, 2, 4, ... while i+1 < len(page).",
 		NotDecided:  "the server's cursor semantics; Err() visibility across goroutines."}
 }
 
@@ -105,6 +105,51 @@ func runC46(r *Report) {
 				}
 			}
 			r.ObSite("R46b", s, "continue-only-if-ok-wanted-and-more", gErr && gYield && gCur, fmt.Sprintf("another page is requested only when the last request succeeded (%v), the consumer wants more (%v) and the cursor is not 0 (%v)", gErr, gYield, gCur))
+		}
+		// R46e: the scan ends only because a request failed, the consumer stopped or the cursor is 0
+		{
+			var loopNext *Site
+			for i := range calls {
+				for _, h := range fn.Blocks {
+					if IsLoopHeader(h) && h.Dominates(calls[i].Block) {
+						loopNext = &calls[i]
+					}
+				}
+			}
+			nExit := 0
+			if loopNext != nil {
+				reach := func(b *ssa.BasicBlock) bool {
+					hit, _ := Reaches(Site{fn, b, -1, nil}, func(w Site) bool { return w.Instr == loopNext.Instr }, nil)
+					return hit
+				}
+				for _, b := range fn.Blocks {
+					iff, ok := b.Instrs[len(b.Instrs)-1].(*ssa.If)
+					if !ok || len(b.Succs) != 2 {
+						continue
+					}
+					r0, r1 := reach(b.Succs[0]), reach(b.Succs[1])
+					if r0 == r1 {
+						continue
+					}
+					nExit++
+					exitTrue := r1 // exit edge is succ 0 when only succ 1 continues
+					g := normGuard(Guard{iff.Cond, exitTrue, b})
+					allowed := false
+					if x, op, y, cok := CmpGuard(g); cok {
+						if op == token.NEQ && IsNilConst(y) && strings.HasSuffix(Desc(x), ".err") {
+							allowed = true
+						}
+						if k, isc := ConstInt(y); isc && k == 0 && op == token.EQL && fieldOfSlot(x, "Cursor") {
+							allowed = true
+						}
+					}
+					if yieldCall != nil && g.Cond == ssa.Value(yieldCall) && !g.Pol {
+						allowed = true
+					}
+					r.ObSite("R46e", Site{fn, b, len(b.Instrs) - 1, iff}, "scan-ends-only-on-error-stop-or-cursor-0", allowed, "leaving the page loop is justified only by a failed request, a consumer that stopped or the final cursor 0: "+g.String())
+				}
+			}
+			r.Anchor("R46e", "scan: loop exits (3)", nExit == 3)
 		}
 		if yieldCall != nil {
 			r.ObSite("R46b", SiteOf(yieldCall), "page-is-current-entry", fieldOfSlot(yieldCall.Call.Args[0], "Elements"), "the page given to the consumer is the Elements of the entry just received")
